@@ -92,6 +92,44 @@ def make_class(rng, fields, rename_p=0.3, defaults=False, name=None):
     return {"name": name, "fields": spec_fields, "cls": cls}
 
 
+def make_subclass(rng, spec):
+    """A subclass of spec's class that redeclares the same fields, giving other declared defaults to the
+    scalar fields that have one (and a default to some that have none)."""
+    xof, fields = {}, []
+    changed = 0
+    for xn, pn, kind, sub, dflt in spec["fields"]:
+        if kind == "sc":
+            if dflt is not None or rng.random() < 0.4:
+                base = 0 if dflt is None else int(dflt)
+                nd = DT[sub].type((base + rng.choice([1, 2, 5])) % 100)
+                xof[xn] = xo.Field(SC[sub], default=nd.item())
+                fields.append((xn, pn, kind, sub, nd))
+                changed += 1
+                continue
+            xof[xn] = SC[sub]
+        elif kind == "str":
+            xof[xn] = xo.String if dflt is None else xo.Field(xo.String, default=dflt)
+        elif kind == "arr":
+            sn, dims = sub
+            sl = tuple(slice(None) if d is None else d for d in dims)
+            at = SC[sn][sl if len(sl) > 1 else sl[0]]
+            xof[xn] = at if dflt is None else xo.Field(at, default_factory=(lambda a=dflt: a.copy()))
+        elif kind == "nested":
+            xof[xn] = sub["cls"]
+        elif kind == "ref":
+            xof[xn] = xo.Ref[sub["cls"]]
+        fields.append((xn, pn, kind, sub, dflt))
+    if not changed:
+        return None
+    ns = {"_xofields": xof}
+    ren = {xn: pn for xn, pn, *_ in spec["fields"] if xn != pn}
+    if ren:
+        ns["_rename"] = ren
+    cls = type(spec["name"] + "Sub", (spec["cls"],), ns)
+    register(cls)
+    return {"name": cls.__name__, "fields": fields, "cls": cls, "parent": spec}
+
+
 def gen_family(rng, levels=2, refs=True, defaults=False, rename_p=0.3):
     """-> (specs innermost first, outer spec)"""
     specs = []
